@@ -68,8 +68,25 @@ func replayMutants(repo, prop, verifDir string) map[string]any {
 	}
 	var rows []map[string]any
 	nOK, nMiss, nSkip := 0, 0, 0
+	// independently seeded changes are replayed like mutants (expectation in expect.json)
+	seedExpect := map[string][2]any{}
+	seeds, _ := filepath.Glob(filepath.Join(verifDir, "seeded", "*", "patch.diff"))
+	sort.Strings(seeds)
+	for _, sp := range seeds {
+		var e struct {
+			Properties []string `json:"properties"`
+			Expect     string   `json:"expect"`
+		}
+		if b, err := os.ReadFile(filepath.Join(filepath.Dir(sp), "expect.json")); err == nil && json.Unmarshal(b, &e) == nil {
+			seedExpect[sp] = [2]any{e.Properties, e.Expect}
+			pats = append(pats, sp)
+		}
+	}
 	for _, p := range pats {
 		props, expect := mutantHeader(p)
+		if se, ok := seedExpect[p]; ok {
+			props, expect = se[0].([]string), se[1].(string)
+		}
 		applies := false
 		for _, q := range props {
 			if q == prop {
@@ -80,6 +97,9 @@ func replayMutants(repo, prop, verifDir string) map[string]any {
 			continue
 		}
 		row := map[string]any{"mutant": filepath.Base(p), "expect": expect}
+		if _, ok := seedExpect[p]; ok {
+			row["mutant"] = "seeded/" + filepath.Base(filepath.Dir(p))
+		}
 		tmp, err := os.MkdirTemp("", "gonnx-mut-")
 		if err != nil {
 			row["result"] = "skipped: " + err.Error()
